@@ -1,2 +1,4 @@
 //! Reference models: written from the property statements and doc/syntax.md.
 pub mod num;
+pub mod book;
+pub mod q;
